@@ -50,6 +50,7 @@ pub fn replay(ctx: &mut Ctx, v: &Value) -> Result<(), String> {
         "doc" | "junk" => docs::replay(ctx, v),
         "line" => lines::replay(ctx, v),
         "list" => listing::replay(ctx, v),
+        "list-law" => listing::replay_law(ctx, v),
         "tok" | "tok-e2e" => tok::replay(ctx, v),
         "pair" => pair::replay(ctx, v),
         "tag" | "opaque" => gram::replay(ctx, v),
